@@ -293,6 +293,7 @@ func init() {
 		}
 		defer srv.stop()
 		tc := &tcpClient{}
+		silent := 0
 		run := func(proto string, payload []byte, o outcome) {
 			curMu.Lock()
 			cur = o
@@ -322,6 +323,9 @@ func init() {
 				}
 			}
 			c.Emit(proto+" "+hx(payload)+" "+o.String(), out)
+			if out == "TIMEOUT" {
+				silent++
+			}
 			c.Stat("proto:" + proto)
 			c.Stat("outcome:" + o.kind)
 			if len(out) > 8 && out != "TIMEOUT" {
@@ -346,6 +350,12 @@ func init() {
 			return nil
 		}
 		for i := 0; i < c.n; i++ {
+			if silent >= 40 {
+				// forty queries have gone unanswered (each cost its 1.5 s wait): every one is already a reported case; the
+				// rest of the sample would only repeat them for hours
+				c.Stat("aborted:too-many-unanswered")
+				break
+			}
 			proto := "udp"
 			if r.Chance(30) {
 				proto = "tcp"
